@@ -403,11 +403,17 @@ def judge (h : HCtx) (op res : Array String) (dump : Option St) : HCtx × List F
   | "hull" =>
     match parseNat (res.getD 1 "") with
     | some size =>
-      let (fw, bw) := splitBar (res.toList.drop 2)
-      match fw.mapM parseNat, bw.mapM parseNat with
-      | some fwd, some bwd =>
+      let (fw, bw0) := splitBar (res.toList.drop 2)
+      let (bw, mx) := splitBar bw0
+      match fw.mapM parseNat, bw.mapM parseNat, mx.mapM parseNat with
+      | some fwd, some bwd, some mixed =>
         (h, chk (decide (s.HullAnswerOK size fwd bwd)) "C14" "hull-answer-wrong"
               (fun _ => s!"{res.toList}") ++
+            -- consumed from both ends in turn: still every hull edge exactly once
+            chk (mixed.length == fwd.length && mixed.eraseDups.length == mixed.length && mixed.all fwd.contains)
+              "C14" "hull-mixed-iteration-wrong" (fun _ => s!"fwd={fwd} mixed={mixed}") ++
+            chk (mixed == s.hullIterMixed) "C14:model" "hull-mixed-iterator-model-differs"
+              (fun _ => s!"model={s.hullIterMixed} impl={mixed}") ++
             -- R3: the iterator model on the dumped links yields the very same sequence
             chk (fwd == s.hullIter) "C14:model" "hull-iterator-model-differs"
               (fun _ => s!"model={s.hullIter} impl={fwd}") ++
@@ -416,7 +422,7 @@ def judge (h : HCtx) (op res : Array String) (dump : Option St) : HCtx × List F
               (fun _ => s!"model={s.hullIterFront} impl={fwd}") ++
             chk (bwd == s.hullIterBack) "C14:model" "hull-back-iterator-model-differs"
               (fun _ => s!"model={s.hullIterBack} impl={bwd}"))
-      | _, _ => bad "result"
+      | _, _, _ => bad "result"
     | none => bad "result"
   | "canadd" | "exists" =>
     match parseNat (op.getD 1 ""), parseNat (op.getD 2 "") with
